@@ -7,7 +7,7 @@ for k in /tmp/seed/$id/SEED/*/; do
   n=$(basename $k)
   mkdir -p /verif/seeded/$id/$n
   cp $k/patch.diff $k/meta.json /verif/seeded/$id/$n/ 
-  cp $k/demo.* /verif/seeded/$id/$n/ 2>/dev/null || true
+  cp $k/demo.* $k/run.sh /verif/seeded/$id/$n/ 2>/dev/null || true
 done
 git -C /repo worktree remove --force /tmp/seed/$id || true
 rm -rf /tmp/seed/$id
